@@ -1,22 +1,30 @@
 """C08 - translation depends on the decoded module, not on its byte encoding."""
-import os
+import os, copy, filecmp
 from core import Job, REPO, H
 import readergen
+import families as F
+import wasmenc, wasmvalid
+from e2 import e2_job, translate
 
 LEVEL = 'model_checking'
 META = {
     'technique': '(a) CBMC symbolic execution of the real leb128ReadU32/I32/U64/I64 on an arbitrary byte buffer of arbitrary length against the specification decoder: complete domain of '
                  'valid encodings (every padding); (b) the real wasmModuleRead (reader.c, section.c, instruction.c) executed by CBMC on template modules whose binary is assembled in the harness '
-                 'with one redundantly padded LEB128 field / one inserted custom section (every section boundary) per query; the decoded WasmModule must equal the template',
-    'functions_encoded': ['leb128.h: leb128ReadU32 leb128ReadI32 leb128ReadU64 leb128ReadI64', 'buffer.h', 'reader.c: wasmModuleRead and every section reader', 'section.c', 'instruction.c: wasmConstInstructionRead', 'valuetype.c', 'array.c', 'export.c'],
+                 'with one redundantly padded LEB128 field / one inserted custom section (every section boundary) per query; the decoded WasmModule must equal the template; '
+                 '(c) translation validation of the whole translator on spec-equivalent spellings: programs of the C03-C07/C16 families are encoded with every LEB128 field padded by 1 byte / to '
+                 'its maximum (function bodies included: indices, memarg, br_table, const immediates, 0xFC/0xFE sub-opcodes, sizes, counts, name lengths) and with custom sections + flag-2 data '
+                 'segments + present-but-empty sections; the real w2c2 translates that binary and CBMC decides equivalence of the emitted C with the reference semantics of the module AST',
+    'functions_encoded': ['emitted C of the real translator for every encoding variant (c) + w2c2_base.h', 'leb128.h: leb128ReadU32 leb128ReadI32 leb128ReadU64 leb128ReadI64', 'buffer.h', 'reader.c: wasmModuleRead and every section reader', 'section.c', 'instruction.c: wasmConstInstructionRead', 'valuetype.c', 'array.c', 'export.c'],
     'bounds': {'LEB128': 'all byte strings of length 0..6 (32-bit) / 0..11 (64-bit): complete', 'templates': '2 modules (<= 140 bytes) covering type/import/function/table/memory/global/export/start/element/datacount/code/data sections, '
                'flag-0 / flag-2 / passive data segments, absent optional sections', 'padding': 'every LEB128 field x {1, max} extra bytes (quick) / every amount (thorough), one field at a time',
+               'encodings (c)': 'quick: 28 programs x {all fields +1, all fields max, equivalent spelling} + single-field max padding for 3 programs; thorough: every family program; '
+               'single-field paddings whose emitted C is byte-identical to the minimal encoding inherit its verdict, others are solver jobs (w2c2 orders function definitions by a key that depends on the body bytes, so the text may be permuted)',
                'custom sections': 'one per query at every section boundary, concrete name (0-3 bytes) and content (0-3 bytes), size field padded 0/2'},
     'assumptions': ['SHA-1 is stubbed (arbitrary digest, input read in bounds): hashing is irrelevant to decoding',
                     'equality of the emitted C for differently encoded binaries follows by composition: c.c reads only the decoded WasmModule and the function-code buffers, which are compared',
-                    'paddings inside function bodies are covered by the LEB128 kernel (instruction decoders call the same readers)',
+                    'call_indirect table byte is not padded (MVP: reserved zero byte)',
                     'the signed left shift (I64)1 << 63 in leb128ReadI64 (formally undefined, not a memory operation, value as on every two\'s-complement compiler) is not counted'],
-    'out_of_claim': ['several fields padded at once (thorough tier pads one at a time as well; symbolic pad amounts make every later read position symbolic and do not finish in 300 s)', 'modules larger than the templates'],
+    'out_of_claim': ['in (b): several fields padded at once (thorough tier pads one at a time as well; symbolic pad amounts make every later read position symbolic and do not finish in 300 s)', 'modules larger than the templates'],
 }
 
 W = os.path.join(REPO, 'w2c2')
@@ -28,6 +36,10 @@ def reader_job(name, path, defs, witnesses=('end',), timeout=300, sample=None):
     return Job(name, [path] + SRCS, incs=[W], defs=DEFS + defs, unwind=12,
                flags=['--no-malloc-may-fail', '--object-bits', '12', '--unwindset', 'harness.0:200,harness.1:200,harness.2:200,SHA1.0:21,put_custom.0:5,put_custom.1:5,wasmModuleRead.0:16'],
                backends=['sat'], witnesses=list(witnesses), timeout=timeout, sample=sample or {},
+               # CBMC's default signed-shl / unary-minus overflow instrumentation flags `-((I64)1 << shift)` in
+               # leb128ReadI64 at shift 63 (a 9-byte negative i64 constant); that is arithmetic in the decoder, not a
+               # statement of C08 (same decoded value) or C10 (memory operations): not counted, as in the LEB kernels
+               ignore_desc=[r'arithmetic overflow on signed (shl|unary minus)'],
                replay=dict(sources=[path] + SRCS, incs=[W], defs=DEFS + defs, asan=True))
 
 
@@ -53,4 +65,101 @@ def make_jobs(ctx):
                 jobs.append(reader_job('reader_%s_custom_at%d_%d%d%d%d' % (tn, pos, nl, cl, cp, npad), path,
                                        ['-DCUSTOM=%d' % pos, '-DCNL=%d' % nl, '-DCCL=%d' % cl, '-DCPAD=%d' % cp, '-DCNPAD=%d' % npad],
                                        sample={'template': tn, 'custom section before section #': pos, 'name/content bytes': '%d/%d' % (nl, cl), 'size padding': cp, 'name-length padding': npad}))
-    return jobs
+    enc, aux = encoding_jobs(ctx)
+    return jobs + enc, aux
+
+
+# ---------------------------------------------------------------------------------------------------------------
+# (c) whole translator on spec-equivalent encodings: the module is encoded with redundant LEB128 padding in every
+# field (function bodies included: indices, memarg, br_table, const immediates, 0xFC/0xFE sub-opcodes, section and
+# body sizes, counts, name lengths), or with custom sections at section boundaries + flag-2 data segments + empty
+# vector sections; the REAL translator translates that binary and CBMC decides equivalence of the emitted C with the
+# reference semantics of the (encoding-independent) module AST.
+NOPAD = ('.ci.table',)     # MVP: reserved zero byte, not a LEB128 field
+
+
+def pool(ctx):
+    out = []
+    cf_script = [{'call': 'f', 'assume': {0: '$ <= 3'}}]
+    uw = ['--unwindset', 'streq.0:26']
+    bm = dict(F.branch_matrix())
+    for n in ('brtable_n3_p0', 'br_i64_d3_l1_e2_if', 'locals_groups_1') if ctx.quick else sorted(bm):
+        out.append(('cf_' + n, bm[n], cf_script, dict(harness_kw={'max_host_calls': 8}, unwind=6, extra_flags=uw)))
+    for k in ((3, 11) if ctx.quick else range(0, 60, 3)):
+        out.append(('cfr_%d' % k, F.control_flow(0, k), cf_script, dict(harness_kw={'max_host_calls': 12}, unwind=6, extra_flags=uw)))
+    def pick(fam, names, kw):
+        lst = fam(ctx.seed, ctx.quick)
+        for (name, m, script, hk) in lst:
+            if names is None or name in names:
+                k2 = dict(kw); k2['harness_kw'] = hk
+                if 'shared' in name or name.startswith('atomic') or name.startswith('futex'):
+                    k2['extra_defs'] = ['-DWASM_THREADS_PTHREADS']
+                out.append((name, m, script, k2))
+    q = ctx.quick
+    pick(F.calls_family, ('direct_p4_i1_at1', 'recursion', 'indirect_deftab_global_123_2', 'indirect_imptab_const_12') if q else None, dict(unwind=8, extra_flags=uw))
+    pick(F.memory_family, ('load_i64_load16_s_o13_a0', 'store_i64_store32_o1', 'grow_seq1_max3', 'bulk_fill_n3', 'bulk_copy_n1', 'bulk_init_n2', 'bulk_seq') if q else None,
+         dict(unwind=14, page=64, extra_flags=uw, timeout=300 if q else 900))
+    pick(F.instantiation_family, ('inst_memdef_tabdef_start1_n1_v0', 'inst_memimp_tabimp_start1_n1_v1', 'inst_memimp_tabdef_start1_n2_v1') if q else None,
+         dict(unwind=14, page=64, extra_flags=uw, timeout=300 if q else 900))
+    pick(F.const_family, ('const_i64_2', 'const_i32_1', 'const_offset_5') if q else None, dict(unwind=14, page=64, extra_flags=uw))
+    al = [x[0] for x in F.atomics_family(ctx.seed, ctx.quick)]
+    pick(F.atomics_family, (al[0], al[21], al[-1]) if q else None, dict(unwind=14, page=64, extra_flags=uw))
+    for op in (('i32.trunc_sat_f32_s', 'i64.trunc_sat_f64_u', 'i64.extend32_s') if q else [o for o in F.FLOAT_OPS if 'sat' in o]):
+        wit = ['end of script']
+        out.append(('op_' + op.replace('.', '_'), F.single_op(op), [{'call': 'f'}], dict(witnesses=wit, timeout=120 if q else 600)))
+    return out
+
+
+def equiv_spelling(m):
+    m2 = copy.deepcopy(m)
+    m2.customs = list(m2.customs) + [(1, 'a', b''), (3, '', b'\x01\x02'), (10, 'producers', b'\x00'), (11, 'x', b'\xff' * 5), ('end', 'zz', b'')]
+    for d in m2.datas:
+        if not d.passive:
+            d.flag2 = True
+    m2.empty_sections = (1, 2, 3, 4, 5, 6, 7, 9, 10, 11)
+    return m2
+
+
+def same_output(d1, files1, d2, files2):
+    if sorted(files1) != sorted(files2):
+        return False
+    return all(filecmp.cmp(os.path.join(d1, f), os.path.join(d2, f), shallow=False) for f in files1)
+
+
+def encoding_jobs(ctx):
+    jobs = []
+    n_fields = n_identical = n_variants = 0
+    for (name, m, script, kw) in pool(ctx):
+        wasmvalid.validate(m)
+        fields = [f for f in wasmenc.paddable_fields(m) if not f.endswith(NOPAD)]
+        kw = dict(kw)
+        kw.setdefault('backends', ['sat', 'kissat'])
+        variants = [('p1', m, {f: 1 for f in fields}), ('pmax', m, {f: 10 for f in fields}), ('equiv', equiv_spelling(m), None)]
+        for (vn, mm, pad) in variants:
+            if vn == 'equiv':
+                wasmvalid.validate(mm)
+            n_variants += 1
+            jobs.append(e2_job(ctx, 'enc_%s_%s' % (name, vn), mm, script, pad=pad, group='enc_' + name,
+                               sample={'encoding': vn, 'fields_padded': len(pad or {}), 'minimal_bytes': len(wasmenc.encode(m)), 'bytes': len(wasmenc.encode(mm, pad))}, **kw))
+        if not ctx.quick or name in ('bulk_seq', 'cf_brtable_n3_p0', 'indirect_deftab_global_123_2'):
+            # one field at a time, padded to its maximum length: when the emitted C is byte-identical to the C emitted for
+            # the minimal encoding the verdict of the minimal encoding carries over (same text, same behaviour) and no
+            # solver run is needed; any difference gets its own solver job
+            base = ctx.dir('e2_encbase_' + name)
+            bfiles, err = translate(ctx, base, wasmenc.encode(m), ())
+            if bfiles is None:
+                jobs.append({'pre_violation': True, 'name': 'enc_%s_minimal' % name, 'desc': 'translator fails on a valid module: ' + err, 'dir': base, 'group': 'enc_' + name})
+                continue
+            jobs.append(e2_job(ctx, 'enc_%s_minimal' % name, m, script, group='enc_' + name, sample={'encoding': 'minimal'}, **kw))
+            for f in fields:
+                n_fields += 1
+                d = ctx.dir('e2_encf_%s_%d' % (name, n_fields))
+                files, err = translate(ctx, d, wasmenc.encode(m, {f: 10}), ())
+                if files is not None and same_output(base, bfiles, d, files):
+                    n_identical += 1
+                    continue
+                jobs.append(e2_job(ctx, 'enc_%s_field_%s' % (name, f), m, script, pad={f: 10}, group='enc_' + name, sample={'encoding': 'one field padded to max', 'field': f}, **kw))
+    aux = {'encoding_variants_solver_decided': n_variants, 'single_field_paddings_translated': n_fields,
+           'single_field_paddings_with_byte_identical_C': n_identical,
+           'single_field_rule': 'byte-identical emitted C inherits the solver verdict of the minimal encoding (enc_<program>_minimal); every other case is its own solver job'}
+    return jobs, aux
